@@ -59,6 +59,19 @@ pub(crate) struct TransportedReceiver<Codec> {
     size: SizeInfo<Codec>,
 }
 
+/// A receiver in transport, borrowing the parts of a [Receiver].
+///
+/// Serializes exactly like [TransportedReceiver]. Serialization must not consume the receiver:
+/// a value is serialized twice when it does not fit into one message, and it is handed back
+/// to the caller when sending fails.
+#[derive(Serialize)]
+#[serde(rename = "TransportedReceiver")]
+#[serde(bound(serialize = "Codec: codec::Codec"))]
+struct TransportedReceiverRef<'a, Codec> {
+    bin_receiver: &'a bin::Receiver,
+    size: &'a SizeInfo<Codec>,
+}
+
 impl<Codec> Receiver<Codec> {
     /// Creates a new receiver.
     pub(super) fn new(bin_receiver: bin::Receiver, size_info: SizeInfo<Codec>) -> Self {
@@ -252,19 +265,19 @@ where
     where
         S: serde::Serializer,
     {
-        let bin_receiver =
-            self.bin_receiver.lock().unwrap().take().ok_or_else(|| {
-                serde::ser::Error::custom("cannot serialize: channel already connected or closed")
-            })?;
+        // The halves are dropped (and thereby handed over, if they are forwarded) together
+        // with this receiver once the value has been sent.
+        let bin_receiver = self.bin_receiver.lock().unwrap();
+        let bin_receiver = bin_receiver.as_ref().ok_or_else(|| {
+            serde::ser::Error::custom("cannot serialize: channel already connected or closed")
+        })?;
 
-        let size = self
-            .size_info
-            .lock()
-            .unwrap()
-            .take()
+        let size = self.size_info.lock().unwrap();
+        let size = size
+            .as_ref()
             .ok_or_else(|| serde::ser::Error::custom("cannot serialize: size info already consumed"))?;
 
-        TransportedReceiver::<Codec> { bin_receiver, size }.serialize(serializer)
+        TransportedReceiverRef::<Codec> { bin_receiver, size }.serialize(serializer)
     }
 }
 
